@@ -672,6 +672,13 @@ func Origins(v ssa.Value) []ssa.Value {
 		case *ssa.UnOp:
 			if x.Op == token.MUL {
 				if a, ok := x.X.(*ssa.Alloc); ok {
+					// flow-sensitive: only the stores that can reach this load
+					if rds := reachingStores(x); len(rds) > 0 {
+						for _, rd := range rds {
+							walk(rd.St.Val)
+						}
+						return
+					}
 					sts := storesTo(a)
 					if len(sts) > 0 {
 						for _, st := range sts {
@@ -1304,4 +1311,93 @@ func RangeValueOf(vm VM) VM {
 		r, ok := nx.Iter.(*ssa.Range)
 		return ok && vm(r.X)
 	}
+}
+
+// reachingDef is a store to a local cell that can reach a given load, with
+// the branch facts collected on the way from the store to the load
+// (intersection over the paths found).
+type reachingDef struct {
+	St    *ssa.Store
+	Facts []Fact
+}
+
+// reachingStores walks the CFG backwards from a load of a local cell to the
+// stores that can reach it (flow-sensitive reaching definitions for one cell).
+func reachingStores(load *ssa.UnOp) []reachingDef {
+	a, ok := load.X.(*ssa.Alloc)
+	if !ok {
+		return nil
+	}
+	found := map[*ssa.Store][]Fact{}
+	var order []*ssa.Store
+	record := func(st *ssa.Store, fs []Fact) {
+		if old, ok := found[st]; ok {
+			// intersect by string form
+			keep := []Fact{}
+			for _, f := range old {
+				for _, g := range fs {
+					if f.String() == g.String() && f.X == g.X {
+						keep = append(keep, f)
+						break
+					}
+				}
+			}
+			found[st] = keep
+			return
+		}
+		found[st] = fs
+		order = append(order, st)
+	}
+	lastStoreIn := func(b *ssa.BasicBlock, before int) *ssa.Store {
+		for i := before - 1; i >= 0; i-- {
+			if st, ok := b.Instrs[i].(*ssa.Store); ok && st.Addr == a {
+				return st
+			}
+		}
+		return nil
+	}
+	if st := lastStoreIn(load.Block(), instrIndex(load)); st != nil {
+		return []reachingDef{{st, FactsAt(load)}}
+	}
+	type item struct {
+		b     *ssa.BasicBlock
+		facts []Fact
+		depth int
+	}
+	visits := map[*ssa.BasicBlock]int{}
+	var walk func(it item)
+	walk = func(it item) {
+		if visits[it.b] > 3 || it.depth > 40 {
+			return
+		}
+		visits[it.b]++
+		for _, p := range it.b.Preds {
+			fs := append(append([]Fact(nil), it.facts...), edgeOnlyFacts(p, it.b)...)
+			if st := lastStoreIn(p, len(p.Instrs)); st != nil {
+				record(st, append(fs, FactsAtBlock(p)...))
+				continue
+			}
+			walk(item{p, fs, it.depth + 1})
+		}
+		visits[it.b]--
+	}
+	walk(item{load.Block(), FactsAt(load), 0})
+	var out []reachingDef
+	for _, st := range order {
+		out = append(out, reachingDef{st, found[st]})
+	}
+	return out
+}
+
+// edgeOnlyFacts: the facts contributed by the branch taken from pred to succ.
+func edgeOnlyFacts(pred, succ *ssa.BasicBlock) []Fact {
+	if c := blockCond(pred); c != nil && len(pred.Succs) == 2 && pred.Succs[0] != pred.Succs[1] {
+		if pred.Succs[0] == succ {
+			return expandAtom(c, true, 0)
+		}
+		if pred.Succs[1] == succ {
+			return expandAtom(c, false, 0)
+		}
+	}
+	return nil
 }
